@@ -26,12 +26,16 @@ RULE = ('seven case kinds; five over packages of 1-5 stub chemicals (quadratic d
         'raising stand-ins: result or exception class, normalised output, the composition arguments handed to the solver '
         '(z pre-processing), N==0 / N==1 / N>=2 branches, negative and zero entries, unnormalised and trace compositions; '
         '(tsat) Chemical.Tsat branches; (cache) histories of constructor calls, object identity pattern and Tmin/Tmax/Pmin/Pmax '
-        'of every returned instance; (history) 3-7 calls (repeats, k*z, alternating T/P and bubble/dew solves) on ONE BubblePoint/DewPoint '
-        'pair compared with run_calls of the model; (real) 24 (quick) / 156 (thorough) structured real-chemical cases per run with the real '
-        'flexsolve - templates plain / mixed-groups (chemicals without UNIFAC/Dortmund groups listed among chemicals with groups, random '
+        'of every returned instance; (history) 3-8 operations on ONE BubblePoint/DewPoint pair - calls that hand over 1-2 composition arrays owned by the caller '
+        '(the array objects themselves) interleaved with in-place updates of those arrays, recurring T / P specifications, repeats, k*z - '
+        'compared with run_hist of the model (results and final array contents); cache histories also switch the session default '
+        'package (settings.set_thermo) and construct with and without the thermo argument, compared with run_session (identity pattern, '
+        'domain and Gamma/Phi/PCF classes of every instance); (real) 24 (quick) / 156 (thorough) structured real-chemical cases per run with the real '
+        'flexsolve - templates plain / heavy (low-volatility chemicals near the lower end of their correlations: dew pressures of a few Pa) / mixed-groups (chemicals without UNIFAC/Dortmund groups listed among chemicals with groups, random '
         'order) / edge (specification 0.25-25 K above the common lower end of the vapour-pressure correlations) over the ideal, Dortmund '
         'and UNIFAC packages - on which the direct oracle evaluates every clause plus the package contracts the theorems assume '
-        '(Gamma/Phi/PCF pure, permuted with the chemical list, Gamma.f/args == Gamma(), repeat of the first calls unchanged); '
+        '(Gamma/Phi/PCF pure, permuted with the chemical list, Gamma.f/args == Gamma(), repeat of the first calls unchanged, caller array re-used after an in-place update, array not written to, '
+        'bounded fall-back path forced by making the open solver raise agrees with the regular path); '
         'plus two fixed real-chemical cases (Water/Ethanol, k*z and permuted list) evaluated with the direct oracle.  '
         'Values to 1e-9 relative, structure exactly.  non-trivial = the call returned values '
         '(not an exception) through the N>=2 path or a history with at least one cache hit; distinct = distinct case hash')
@@ -1113,7 +1117,9 @@ def oracle_other(case):
                 return (f'{"BubblePoint" if case["cls"] == "B" else "DewPoint"}(chemicals{"" if by_default else ", thermo"}) returned an instance '
                         f'whose Gamma/Phi/PCF classes {pkc} are not those of {how} {want} (chemicals {list(idx)})')
             kk = (tuple(idx), th)
-            if kk in seen and seen[kk] != (i, d): return f'constructor call with the same key returned a different instance/domain: {kk}'
+            if kk in seen and seen[kk] != (i, d):
+                return (f'constructor call with the same key returned a different instance/domain: chemicals {list(idx)}, package {th} '
+                        f'(the package is the one passed as thermo or, without thermo, the session default at that moment)')
             for k2, v2 in seen.items():
                 if k2 != kk and v2[0] == i: return f'different keys {k2} and {kk} share one instance'
             seen[kk] = (i, d)
